@@ -5,23 +5,14 @@ Open Scope list_scope.
 
 (* ---- classification ---- *)
 
-(* The code's decision: paged exactly when page_token and next_page_token are of type string, the size field
-   (max_results when present, otherwise page_size) is an integer or a message called Int32Value/UInt32Value,
-   and the response has a repeated field.  This is the code's condition; where it differs from the sentence of
-   the property is shown by the three _refuted statements below. *)
+(* The property's own rule, for ALL shapes: a method is paged exactly when its request has a singular string
+   page_token and a singular integer page_size (or a singular max_results that is an integer or a message called
+   Int32Value/UInt32Value), and its response has a singular string next_page_token and a repeated field. *)
 Theorem C07_paged_iff : forall req resp,
   uniq req -> uniq resp ->
-  ((exists f, paged_result_field req resp = Some f) <-> code_paged req resp).
-Proof. exact paged_iff_code. Qed.
-Print Assumptions C07_paged_iff.
-
-(* On shapes whose paging fields are singular, whose page_size is not a message and where no inadmissible
-   max_results sits next to an integer page_size, the code decides exactly the property's sentence. *)
-Theorem C07_paged_iff_spec_regular : forall req resp,
-  uniq req -> uniq resp -> regular req resp ->
   ((exists f, paged_result_field req resp = Some f) <-> spec_paged req resp).
-Proof. exact paged_iff_spec_regular. Qed.
-Print Assumptions C07_paged_iff_spec_regular.
+Proof. exact paged_iff_spec. Qed.
+Print Assumptions C07_paged_iff.
 
 (* the item field is the first repeated field of the response, in declaration order *)
 Theorem C07_first_repeated_field : forall req resp f,
@@ -30,36 +21,29 @@ Theorem C07_first_repeated_field : forall req resp f,
 Proof. exact paged_field_first_repeated. Qed.
 Print Assumptions C07_first_repeated_field.
 
-(* the sentence of the property does NOT hold of the code on all shapes: three witnesses *)
-Theorem C07_paged_iff_spec_refuted_wrapper_page_size :
-  exists req resp, uniq req /\ uniq resp /\ paged_result_field req resp <> None /\ ~ spec_paged req resp.
-Proof. exact paged_iff_spec_refuted_wrapper_page_size. Qed.
-Print Assumptions C07_paged_iff_spec_refuted_wrapper_page_size.
+(* the three shapes on which code and sentence used to differ (wrapper-typed page_size; mistyped max_results next
+   to an integer page_size; repeated page_token) are decided as the sentence says *)
+Example C07_former_gaps_closed :
+  paged_result_field req_wrapper_page_size resp_std = None /\
+  option_map fname (paged_result_field req_shadowed_page_size resp_std) = Some "books" /\
+  paged_result_field req_repeated_token resp_std = None.
+Proof. exact former_gaps_closed. Qed.
+Print Assumptions C07_former_gaps_closed.
 
-Theorem C07_paged_iff_spec_refuted_shadowed_page_size :
-  exists req resp, uniq req /\ uniq resp /\ spec_paged req resp /\ paged_result_field req resp = None.
-Proof. exact paged_iff_spec_refuted_shadowed_page_size. Qed.
-Print Assumptions C07_paged_iff_spec_refuted_shadowed_page_size.
-
-Theorem C07_paged_iff_spec_refuted_repeated_paging_field :
-  exists req resp, uniq req /\ uniq resp /\ paged_result_field req resp <> None /\ ~ spec_paged req resp.
-Proof. exact paged_iff_spec_refuted_repeated_paging_field. Qed.
-Print Assumptions C07_paged_iff_spec_refuted_repeated_paging_field.
-
-Example C07_regular_nontrivial :
-  uniq req_conventional /\ uniq resp_two_repeated /\ regular req_conventional resp_two_repeated /\
+Example C07_paged_nontrivial :
+  uniq req_conventional /\ uniq resp_two_repeated /\
   spec_paged req_conventional resp_two_repeated /\
   option_map fname (paged_result_field req_conventional resp_two_repeated) = Some "labels".
-Proof. exact regular_conventional. Qed.
-Print Assumptions C07_regular_nontrivial.
+Proof. exact conventional_paged. Qed.
+Print Assumptions C07_paged_nontrivial.
 
-(* a client method (sync or asyncio) returns a pager exactly under the code's condition on its two shapes, and
+(* a client method (sync or asyncio) returns a pager exactly under the property's rule on its two shapes, and
    pagers.py holds one class per paged method (two when a gRPC transport is generated) *)
-Theorem C07_wrap_iff_code_paged : forall (is_async : bool) (m : rpc),
+Theorem C07_wrap_iff_spec_paged : forall (is_async : bool) (m : rpc),
   uniq (r_req m) -> uniq (r_resp m) ->
-  ((exists w, client_wrap is_async m = Some w) <-> code_paged (r_req m) (r_resp m)).
-Proof. exact wrap_iff_code_paged. Qed.
-Print Assumptions C07_wrap_iff_code_paged.
+  ((exists w, client_wrap is_async m = Some w) <-> spec_paged (r_req m) (r_resp m)).
+Proof. exact wrap_iff_spec_paged. Qed.
+Print Assumptions C07_wrap_iff_spec_paged.
 
 Theorem C07_pagers_module_classes : forall (with_async : bool) (ms : list rpc),
   length (pagers_module with_async ms) =
@@ -141,6 +125,30 @@ Theorem C07_attrs_of_last_page :
   o_final o = Some last.
 Proof. exact attrs_of_last_page. Qed.
 Print Assumptions C07_attrs_of_last_page.
+
+(* leaving the loop early, while page number b is held: b follow-up calls were made (threaded as above), nothing
+   else was fetched, and attribute lookup on the pager reaches page b — for the sync and the asyncio pager alike *)
+Theorem C07_early_break_behaviour :
+  forall (item attrs fields opts : Type) (is_async : bool) (c : call fields opts)
+         (p0 : page item attrs) script (o : outcome item attrs fields opts) init last rest b,
+  iterate is_async c p0 script = Some o -> splits_at_first_empty (p0 :: script) init last rest ->
+  b <= length init ->
+  exists o', stop_after b o = Some o' /\
+    o_pages o' = firstn (S b) (init ++ [last]) /\
+    o_calls o' = c :: map (fun p => mkCall (p_token p) (c_fields c) (c_opts c)) (firstn b init) /\
+    o_final o' = nth_error (init ++ [last]) b /\
+    o_items o' = concat (map p_items (firstn (S b) (init ++ [last]))).
+Proof. exact early_break_behaviour. Qed.
+Print Assumptions C07_early_break_behaviour.
+
+Example C07_early_break_nontrivial :
+  1 <= length [ex_p ["a"; "b"] "t1"; ex_p [] "t2"] /\
+  option_map (fun o => (o_calls o, o_final o))
+    (match iterate true (mkCall "" "parent=p" "timeout=3") (ex_p ["a"; "b"] "t1") ex_script with
+     | Some o => stop_after 1 o | None => None end)
+  = Some ([mkCall "" "parent=p" "timeout=3"; mkCall "t1" "parent=p" "timeout=3"], Some (ex_p [] "t2")).
+Proof. exact early_break_example. Qed.
+Print Assumptions C07_early_break_nontrivial.
 
 Theorem C07_sync_async_agree :
   forall (item attrs fields opts : Type) (c : call fields opts) (p0 : page item attrs) script,
